@@ -171,6 +171,22 @@ def buildUnit (m : SlotMode) (r : Resolver) (cmds : List Cmd) : Except BuildErr 
       if seen == 0 || !known then .error .noBusinessKeys
       else .ok { slot := slot, slotTag := slotTag slot, cmds := cmds }
 
+/-! ### snapshot phase: buildBisyncRdbReplayUnit (bisync_rdb.go) -/
+
+/-- `bisyncRdbTargetKey`: with replace-hashtag the first `{` and the first `}`
+    are removed (`bytes.Replace(…, 1)` each), an empty key stays empty -/
+def rdbTargetKey (replaceHashTag : Bool) (key : Bytes) : Bytes :=
+  if key.isEmpty then []
+  else if replaceHashTag then (key.erase Slot.lbrace).erase Slot.rbrace
+  else key
+
+/-- the routing part of `buildBisyncRdbReplayUnit`: the slot is the slot of the
+    TARGET key in cluster mode, 0 otherwise; the commands are the expansion of
+    the entry (all on the target key) -/
+def buildRdbUnit (cluster replaceHashTag : Bool) (key : Bytes) (cmds : List Cmd) : RUnit :=
+  let slot := if cluster then Slot.keyToSlot (rdbTargetKey replaceHashTag key) else 0
+  { slot := slot, slotTag := slotTag slot, cmds := cmds }
+
 /-! ### the transaction a unit is committed with (dispatchBisyncUnit /
     execBisyncRdbUnit): marker, business commands, record, index -/
 
